@@ -163,6 +163,16 @@ func (s *syncWorld) envelopeSeeds(thorough bool) {
 
 					s.add(&Seed{Name: fmt.Sprintf("env.%s.%s.%s.n%d", kind, kt, style, len(rs)), Layer: "E1", Kind: "json",
 						Wire: wire, Targets: []Target{{"packager.UnpackMessage", unpack}, {"jose.Deserialize+Decrypt", joseDec}}})
+
+					// pairs: the same envelope one deletion away (no sender key id), so that the closure of it reaches
+					// what the code does with "apu" when "skid" is absent
+					if kind == "jwe-auth" && style == "didkey" && len(rs) == 2 { //nolint:gomnd
+						if tree, ok := explodeWire(wire); ok {
+							noSkid := setAt(tree, []step{{key: "protected"}, {in: true}, {key: "skid"}}, delMark{})
+							s.add(&Seed{Name: fmt.Sprintf("env.%s.%s.%s.n%d.noskid", kind, kt, style, len(rs)), Layer: "E1",
+								Kind: "json", Wire: render(noSkid), Targets: []Target{{"jose.Deserialize+Decrypt", joseDec}}})
+						}
+					}
 				}
 			}
 		}
